@@ -104,6 +104,7 @@ int main(int argc, char **argv) {
     if (line.empty()) continue;
     auto f = split(line, ' ');
     cleanDir();
+    alarm(60);   // watchdog (SIGALRM kills the process; the runner reports `fault hang`)
     if (f[0] == "step") {
       uint32_t pc = strtoul(f[1].c_str(), 0, 16), a = strtoul(f[2].c_str(), 0, 16),
                b = strtoul(f[3].c_str(), 0, 16), o = strtoul(f[4].c_str(), 0, 16);
